@@ -114,6 +114,17 @@ func (u *memoryManagementUnit) fetchCacheLine(addr int32) []int8 {
 	return memory
 }
 
+// dropPending forgets the fetch of the line holding addr.
+func (u *memoryManagementUnit) dropPending(addr int32) {
+	base := addr - addr%l3CacheLineSize
+	for i, pending := range u.pendings {
+		if pending[0] == base {
+			u.pendings = append(u.pendings[:i], u.pendings[i+1:]...)
+			return
+		}
+	}
+}
+
 func (u *memoryManagementUnit) pushLineToL3(addr comp.AlignedAddress, line []int8) {
 	addr -= addr % l3CacheLineSize
 	evicted := u.l3.PushLine(addr, line)
